@@ -55,8 +55,8 @@ theorem AbsTables.clean_sch {sch sch' : Levels} {tbls : List (Bytes × Levels)} 
   | nil => exact .nil
   | @cons e st tbls' sdb' hx _ ih =>
     refine .cons ?_ (ih (fun n hn => hs n (by simp only [List.map_cons, List.mem_cons]; exact .inr hn)))
-    obtain ⟨schema, h1, h2, h3⟩ := hx
-    refine ⟨schema, ?_, ?_, ?_⟩
+    obtain ⟨schema, h1, hnd, h2, h3⟩ := hx
+    refine ⟨schema, ?_, hnd, ?_, ?_⟩
     · show schemaOf sch' e.1 = some schema
       rw [hs e.1 (by simp), h1]
     · intro c hc
@@ -72,6 +72,7 @@ theorem specCreate_some {sdb sdb' : Spec.SDB} {name : Bytes} {cols : List Sql.Co
     (h : Spec.specCreate sdb name cols = some sdb') :
     Spec.findTable sdb name = none ∧ name ≠ sysPages ∧ name ≠ sysSchema ∧
     (∀ c ∈ cols, ∀ n, c.ty = .varchar n → n ≤ 2147483647) ∧
+    (cols.map fun c => Spec.nameStr c.name).Nodup ∧
     sdb' = sdb ++ [⟨name, cols.map Spec.colField, []⟩] := by
   unfold Spec.specCreate at h
   split at h
@@ -80,15 +81,29 @@ theorem specCreate_some {sdb sdb' : Spec.SDB} {name : Bytes} {cols : List Sql.Co
     split at h
     · cases h
     · rename_i h2
-      simp only [Option.some.injEq] at h
-      simp only [Bool.or_eq_true, beq_iff_eq, not_or, Option.isSome_iff_ne_none, ne_eq, Classical.not_not] at h1
-      refine ⟨h1.1.1, h1.1.2, h1.2, ?_, h.symm⟩
-      intro c hc n hty
-      apply Classical.byContradiction
-      intro hgt
-      apply h2
-      rw [List.any_eq_true]
-      exact ⟨c, hc, by simp only [hty, decide_eq_true_eq]; omega⟩
+      split at h
+      · cases h
+      · rename_i h3
+        simp only [Option.some.injEq] at h
+        simp only [Bool.or_eq_true, beq_iff_eq, not_or, Option.isSome_iff_ne_none, ne_eq, Classical.not_not] at h1
+        refine ⟨h1.1.1, h1.1.2, h1.2, ?_, ?_, h.symm⟩
+        · intro c hc n hty
+          apply Classical.byContradiction
+          intro hgt
+          apply h2
+          rw [List.any_eq_true]
+          exact ⟨c, hc, by simp only [hty, decide_eq_true_eq]; omega⟩
+        · apply (eraseDups_length_eq_iff _).mp
+          have : (cols.map fun c => Spec.nameStr c.name).eraseDups.length = cols.length := by
+            simpa using h3
+          rw [this, List.length_map]
+
+/-- a repeated column name makes the spec refuse -/
+theorem specCreate_none_of_dup {sdb : Spec.SDB} {name : Bytes} {cols : List Sql.ColDef}
+    (hdup : ¬ (cols.map fun c => Spec.nameStr c.name).Nodup) : Spec.specCreate sdb name cols = none := by
+  cases h : Spec.specCreate sdb name cols with
+  | none => rfl
+  | some sdb' => exact absurd (specCreate_some h).2.2.2.2.1 hdup
 
 /-- the column lengths the model checks -/
 theorem colLens_ok (cols : List Sql.ColDef) (hhi : ∀ c ∈ cols, ∀ n, c.ty = .varchar n → n ≤ 2147483647)
@@ -108,6 +123,38 @@ theorem colLens_ok (cols : List Sql.ColDef) (hhi : ∀ c ∈ cols, ∀ n, c.ty =
   | bigint => simp
   | boolean => simp
 
+theorem colNames_eq (cols : List Sql.ColDef) :
+    (cols.map Engine.colTypeToField).map (·.name) = cols.map fun c => Spec.nameStr c.name := by
+  rw [List.map_map]
+  apply List.map_congr_left
+  intro c _
+  simp only [Function.comp, Engine.colTypeToField]
+  cases c.ty <;> rfl
+
+/-- the per-column checks of the model: lengths inside `int32`, no column name twice -/
+theorem colFields_ok (cols : List Sql.ColDef) (hhi : ∀ c ∈ cols, ∀ n, c.ty = .varchar n → n ≤ 2147483647)
+    (hlo : ∀ c ∈ cols, ∀ n, c.ty = .varchar n → -2147483648 ≤ n)
+    (hnd : (cols.map fun c => Spec.nameStr c.name).Nodup) :
+    checkFieldsFrom [] (cols.map Engine.colTypeToField) = none := by
+  rw [checkFields_none_iff, colNames_eq]
+  refine ⟨?_, hnd⟩
+  intro fd hfd
+  have := List.any_eq_false.mp (colLens_ok cols hhi hlo) fd hfd
+  simp only [Bool.or_eq_true, decide_eq_true_eq, not_or] at this
+  omega
+
+/-- a repeated column name makes the model's per-column checks object (with `fieldAmbiguous`, or with
+`intOutOfRange` when an earlier column has a length outside `int32`) -/
+theorem colFields_dup (cols : List Sql.ColDef) (hdup : ¬ (cols.map fun c => Spec.nameStr c.name).Nodup) :
+    ∃ e, checkFieldsFrom [] (cols.map Engine.colTypeToField) = some e ∧
+      (e = .intOutOfRange ∨ e = .fieldAmbiguous) := by
+  cases h : checkFieldsFrom [] (cols.map Engine.colTypeToField) with
+  | some e => exact ⟨e, rfl, checkFieldsFrom_some h⟩
+  | none =>
+    have := ((checkFields_none_iff _).mp h).2
+    rw [colNames_eq] at this
+    exact absurd this hdup
+
 theorem findTable_none_notin {sch : Levels} {tbls : List (Bytes × Levels)} {sdb : Spec.SDB}
     (h : AbsTables sch tbls sdb) (hnd : (tbls.map (·.1)).Nodup) {name : Bytes}
     (hf : Spec.findTable sdb name = none) : name ∉ tbls.map (·.1) := by
@@ -122,7 +169,8 @@ theorem valsOf_append (a b : Spec.SDB) : valsOf (a ++ b) = valsOf a ++ valsOf b 
 
 /-- **CREATE TABLE refines the spec.**  If the store abstracts (modulo row ids) to `sdb`, `sys_schema`
 has no stale rows, every cached page is filed under its own offset, the spec accepts the statement,
-the catalog rows fit (`checkCatalogRows`), no `VARCHAR` length is below `-2^31`, and the room
+(so no column name is used twice), the catalog rows fit (`checkCatalogRows`), no `VARCHAR` length is
+below `-2^31`, and the room
 conditions of `createTable_cat` hold, then `evalCreateTable` (with its flush) succeeds, the log is
 untouched, and the flushed store abstracts to `sdb'` = `sdb` with the new empty table appended; the
 new catalog has no stale rows either, and the cache is clean. -/
@@ -144,10 +192,10 @@ theorem evalCreateTable_refines_specV (db : Engine.DB) (pt sch : Levels) (tbls :
       MemFiled db'.store ∧ db'.store.dhdr = db'.store.hdr ∧ (∀ p ∈ db'.store.mem, p.2.dirty = false) ∧
       db'.store.hdr.lastKey = db.store.hdr.lastKey + 1 + cols.length := by
   obtain ⟨sdb0, habs, hv⟩ := h
-  obtain ⟨hfind, hn1, hn2, hhi, rfl⟩ := specCreate_some hspec
+  obtain ⟨hfind, hn1, hn2, hhi, hndc, rfl⟩ := specCreate_some hspec
   have hfind0 : Spec.findTable sdb0 name = none := (findTable_none_congr hv name).mpr hfind
   have hn3 : name ∉ tbls.map (·.1) := findTable_none_notin habs.tabs habs.cat.tnames hfind0
-  have hlenr := colLens_ok cols hhi hlo
+  have hlenr := colFields_ok cols hhi hlo hndc
   obtain ⟨sN, s', pt1, nf1, ptN, schN, _, e2, hc', _, hd, _, hf', _, hnd, _, _, _, _, _, _, _, hso1, hso2, lk, _⟩ :=
     createTable_cat habs.cat hmf (cols.map Engine.colTypeToField) name order hn1 hn2 hn3 hlenr hchk hpd hpl
       (by rw [List.length_map]; exact hsd) (by rw [List.length_map]; exact hsl)
@@ -161,7 +209,8 @@ theorem evalCreateTable_refines_specV (db : Engine.DB) (pt sch : Levels) (tbls :
     · apply habs.tabs.clean_sch
       intro n hn
       exact hso2 n (fun heq => hn3 (heq ▸ hn))
-    · exact .cons ⟨cols.map Engine.colTypeToField, hsnew, (by intro c hc; cases hc), rfl⟩ .nil
+    · exact .cons ⟨cols.map Engine.colTypeToField, hsnew, ((checkFields_none_iff _).mp hlenr).2,
+        (by intro c hc; cases hc), rfl⟩ .nil
   · rw [valsOf_append, valsOf_append, hv, colFields_eq]
   · intro n hn h1 h2
     have hne : n ≠ name := by
@@ -185,6 +234,8 @@ inductive CreateRefusal (sdb : Spec.SDB) (pt : Levels) (name : Bytes) (cols : Li
   | sysPages (off : Nat) : name = sysPages → (sysPages, off) ∈ ptEntries pt → CreateRefusal sdb pt name cols
   | tooLong (c : Sql.ColDef) (n : Int) : Spec.findTable sdb name = none → name ≠ sysPages → name ≠ sysSchema →
       c ∈ cols → c.ty = .varchar n → n > 2147483647 → CreateRefusal sdb pt name cols
+  | dupColumn : Spec.findTable sdb name = none → name ≠ sysPages → name ≠ sysSchema →
+      ¬ (cols.map fun c => Spec.nameStr c.name).Nodup → CreateRefusal sdb pt name cols
 
 theorem createTable_of_offset_ok (fields : List FieldDef) (name : Bytes) (order : List Nat) (doFlush : Bool)
     (s s1 : Store) (off : Nat) (h : relationOffset name s = .ok off s1) :
@@ -192,16 +243,18 @@ theorem createTable_of_offset_ok (fields : List FieldDef) (name : Bytes) (order 
   unfold createTable
   rw [h]
 
-/-- **CREATE TABLE refused.**  The spec refuses (`specCreate … = none`) because the name is taken or a
-`VARCHAR` length exceeds `2^31-1`: the model refuses with `tableAlreadyExist` resp. `intOutOfRange`;
-pages and header are as before, the log is untouched, the abstraction is the same. -/
+/-- **CREATE TABLE refused.**  The spec refuses (`specCreate … = none`) because the name is taken, a
+`VARCHAR` length exceeds `2^31-1`, or a column name is used twice: the model refuses with
+`tableAlreadyExist` resp. `intOutOfRange` / `fieldAmbiguous` (the per-column checks run column by
+column: whichever of an over-long length and a repeated name comes first); pages and header are as
+before, the log is untouched, the abstraction is the same. -/
 theorem evalCreateTable_refused_specV (db : Engine.DB) (pt sch : Levels) (tbls : List (Bytes × Levels))
     (sdb : Spec.SDB) (h : AbsV db.store pt sch tbls sdb) (name : Bytes) (cols : List Sql.ColDef)
     (order : List Nat) (doFlush : Bool) (hbad : CreateRefusal sdb pt name cols) :
     Spec.specCreate sdb name cols = none ∧
     ∃ e db', Engine.evalCreateTable db name cols order doFlush = .err (.store e) db' ∧
-      (e = .tableAlreadyExist ∨ e = .intOutOfRange) ∧ db'.wal = db.wal ∧ Same db.store db'.store ∧
-      AbsV db'.store pt sch tbls sdb := by
+      (e = .tableAlreadyExist ∨ e = .intOutOfRange ∨ e = .fieldAmbiguous) ∧ db'.wal = db.wal ∧
+      Same db.store db'.store ∧ AbsV db'.store pt sch tbls sdb := by
   obtain ⟨sdb0, habs, hv⟩ := h
   cases hbad with
   | exists_ hsome =>
@@ -265,22 +318,38 @@ theorem evalCreateTable_refused_specV (db : Engine.DB) (pt sch : Levels) (tbls :
         unfold Engine.colTypeToField
         simp only [hty, Bool.or_eq_true, decide_eq_true_eq]
         exact .inl hgt
-      have e : createTable (cols.map Engine.colTypeToField) name order doFlush db.store = .err .intOutOfRange s' := by
+      obtain ⟨ec, hfld⟩ := checkFieldsFrom_of_len (seen := []) hany
+      have e : createTable (cols.map Engine.colTypeToField) name order doFlush db.store = .err ec s' := by
         unfold createTable
         rw [e1]
-        simp only [hany, if_true]
-      refine ⟨_, { db with store := s' }, ?_, .inr rfl, rfl, hs, ⟨sdb0, ⟨hc', habs.tabs⟩, hv⟩⟩
+        simp only [hfld]
+      refine ⟨_, { db with store := s' }, ?_, .inr (checkFieldsFrom_some hfld), rfl, hs,
+        ⟨sdb0, ⟨hc', habs.tabs⟩, hv⟩⟩
       simp only [Engine.evalCreateTable, Engine.liftS, e]
+  | dupColumn hfind hn1 hn2 hdup =>
+    refine ⟨specCreate_none_of_dup hdup, ?_⟩
+    have hfind0 : Spec.findTable sdb0 name = none := (findTable_none_congr hv name).mpr hfind
+    have hn3 : name ∉ tbls.map (·.1) := findTable_none_notin habs.tabs habs.cat.tnames hfind0
+    obtain ⟨s', e1, hs, hc'⟩ := relationOffset_cat_unknown habs.cat name hn1 hn2 hn3
+    obtain ⟨ec, hfld, hkind⟩ := colFields_dup cols hdup
+    have e : createTable (cols.map Engine.colTypeToField) name order doFlush db.store = .err ec s' := by
+      unfold createTable
+      rw [e1]
+      simp only [hfld]
+    refine ⟨_, { db with store := s' }, ?_, .inr hkind, rfl, hs, ⟨sdb0, ⟨hc', habs.tabs⟩, hv⟩⟩
+    simp only [Engine.evalCreateTable, Engine.liftS, e]
 
 /-- **What the spec does not know.**  For a fresh name, catalog rows that do not encode or do not fit
 a page cell (`checkCatalogRows … = some e`: a table or column name that is too long), or a column
-length outside `int32`, make the model refuse; nothing changes.  (The spec's `specCreate` accepts
-such a statement unless a `VARCHAR` length exceeds `2^31-1`.) -/
+length outside `int32` (or whatever else the per-column checks object to), make the model refuse;
+nothing changes.  (The spec's `specCreate` accepts such a statement unless a `VARCHAR` length exceeds
+`2^31-1` or a column name is used twice.) -/
 theorem evalCreateTable_catalog_refused (db : Engine.DB) (pt sch : Levels) (tbls : List (Bytes × Levels))
     (sdb : Spec.SDB) (h : AbsV db.store pt sch tbls sdb) (name : Bytes) (cols : List Sql.ColDef)
     (order : List Nat) (doFlush : Bool)
     (hfind : Spec.findTable sdb name = none) (hn1 : name ≠ sysPages) (hn2 : name ≠ sysSchema)
     (hbad : (cols.map Engine.colTypeToField).any (fun fd => fd.len > 2147483647 || fd.len < -2147483648) = true ∨
+      (∃ e, checkFieldsFrom [] (cols.map Engine.colTypeToField) = some e) ∨
       ∃ e, checkCatalogRows (cols.map Engine.colTypeToField) name = some e) :
     ∃ e db', Engine.evalCreateTable db name cols order doFlush = .err (.store e) db' ∧
       db'.wal = db.wal ∧ Same db.store db'.store ∧ AbsV db'.store pt sch tbls sdb := by
@@ -288,20 +357,24 @@ theorem evalCreateTable_catalog_refused (db : Engine.DB) (pt sch : Levels) (tbls
   have hfind0 : Spec.findTable sdb0 name = none := (findTable_none_congr hv name).mpr hfind
   have hn3 : name ∉ tbls.map (·.1) := findTable_none_notin habs.tabs habs.cat.tnames hfind0
   obtain ⟨s', e1, hs, hc'⟩ := relationOffset_cat_unknown habs.cat name hn1 hn2 hn3
-  by_cases hany : (cols.map Engine.colTypeToField).any
-      (fun fd => fd.len > 2147483647 || fd.len < -2147483648) = true
-  · have e : createTable (cols.map Engine.colTypeToField) name order doFlush db.store = .err .intOutOfRange s' := by
+  cases hfld : checkFieldsFrom [] (cols.map Engine.colTypeToField) with
+  | some ec =>
+    have e : createTable (cols.map Engine.colTypeToField) name order doFlush db.store = .err ec s' := by
       unfold createTable
       rw [e1]
-      simp only [hany, if_true]
-    refine ⟨.intOutOfRange, { db with store := s' }, ?_, rfl, hs, ⟨sdb0, ⟨hc', habs.tabs⟩, hv⟩⟩
+      simp only [hfld]
+    refine ⟨ec, { db with store := s' }, ?_, rfl, hs, ⟨sdb0, ⟨hc', habs.tabs⟩, hv⟩⟩
     simp only [Engine.evalCreateTable, Engine.liftS, e]
-  · rcases hbad with hb | ⟨x, hx⟩
-    · exact absurd hb hany
+  | none =>
+    rcases hbad with hb | ⟨x, hx⟩ | ⟨x, hx⟩
+    · rw [checkFieldsFrom_none_len hfld] at hb
+      cases hb
+    · rw [hfld] at hx
+      cases hx
     · have e : createTable (cols.map Engine.colTypeToField) name order doFlush db.store = .err x s' := by
         unfold createTable
         rw [e1]
-        simp only [hany, Bool.false_eq_true, if_false, hx]
+        simp only [hfld, hx]
       refine ⟨x, { db with store := s' }, ?_, rfl, hs, ⟨sdb0, ⟨hc', habs.tabs⟩, hv⟩⟩
       simp only [Engine.evalCreateTable, Engine.liftS, e]
 
